@@ -624,3 +624,67 @@ def ccrypto_boundary(rng, limit):
 
 BOUNDED["cbuffer-model"] = dict(functions=[], extra=["cbuffer_model"], bound="see result", quick=30000, thorough=400000)
 BOUNDED["ccrypto-boundary"] = dict(functions=[], extra=["ccrypto_boundary"], bound="see result", quick=1, thorough=1)
+
+
+def server_routing_model(rng, limit):
+    """asyncio QuicServer routing callbacks vs a dict reference model (C19): random tables (keys: issued IDs, the original
+    destination ID, a retry source ID, foreign IDs), then _connection_id_issued / _connection_id_retired /
+    _connection_terminated in random order on the REAL QuicServer; after _connection_terminated(p) no key maps to p and every
+    other entry is unchanged."""
+    import types
+
+    from aioquic.asyncio.server import QuicServer
+    out = {"cases": 0, "violations": [], "bound": "tables of <= 8 entries over <= 3 protocols, <= 6 operations each; %d tables" % limit}
+    for _case in range(limit):
+        server = QuicServer.__new__(QuicServer)  # the constructor needs a running event loop; the three callbacks only use _protocols
+        protos = []
+        for i in range(rng.randint(1, 3)):
+            n_host = rng.randint(0, 3)
+            quic = types.SimpleNamespace(
+                _host_cids=[types.SimpleNamespace(cid=bytes([i, 10 + j]) * 4, sequence_number=j) for j in range(n_host)],
+                original_destination_connection_id=bytes([i, 99]) * 4,
+                host_cid=bytes([i, 10]) * 4,
+            )
+            protos.append(types.SimpleNamespace(_quic=quic, name="p%d" % i))
+        ref = {}
+        for p in protos:
+            keys = [c.cid for c in p._quic._host_cids] + [p._quic.original_destination_connection_id]
+            if rng.random() < 0.5:
+                keys.append(bytes([7, len(ref)]) * 4)  # e.g. the retry source connection ID: filed, but in neither list
+            for k in keys:
+                if rng.random() < 0.8:
+                    ref[k] = p
+        server._protocols = dict(ref)
+        ops = []
+        for _ in range(rng.randint(1, 6)):
+            p = rng.choice(protos)
+            kind = rng.choice(("issued", "retired", "terminated", "terminated"))
+            try:
+                if kind == "issued":
+                    cid = bytes([8, rng.randrange(4)]) * 4
+                    server._connection_id_issued(cid, p)
+                    ref[cid] = p
+                elif kind == "retired":
+                    mine = [k for k, v in ref.items() if v is p]
+                    if not mine:
+                        continue
+                    cid = rng.choice(mine)
+                    server._connection_id_retired(cid, p)
+                    del ref[cid]
+                else:
+                    server._connection_terminated(p)
+                    ref = {k: v for k, v in ref.items() if v is not p}
+                ops.append((kind, p.name))
+            except Exception as e:  # noqa
+                out["violations"].append(_viol("%s raised %s" % (kind, type(e).__name__), {"ops": ops + [(kind, p.name)]}))
+                return out
+            got = {k: v for k, v in server._protocols.items()}
+            if set(got) != set(ref) or any(got[k] is not ref[k] for k in ref):
+                left = sorted(k.hex() for k in set(got) - set(ref))
+                out["violations"].append(_viol("routing table differs from the model after %s(%s): entries left behind %s, missing %s" % (kind, p.name, left, sorted(k.hex() for k in set(ref) - set(got))), {"ops": ops}))
+                return out
+        out["cases"] += 1
+    return out
+
+
+BOUNDED["server-routing-model"] = dict(functions=[], extra=["server_routing_model"], bound="see result", quick=2000, thorough=50000)
